@@ -57,14 +57,23 @@ def gen_consts():
     if old != txt:
         with open(path, "w") as f:
             f.write(txt)
+    # source-derived tie (DESIGN.md §0.7): shallow Lean translations of the library's leaf functions from
+    # the clang AST of the current tree -> Generated/Funcs.lean (imported by the Props files only)
+    import cxx2lean
+    global UNTRANSLATABLE
+    UNTRANSLATABLE = cxx2lean.write(REPO, LEAN)
     return extract_consts.extract(REPO)
 
 
-def lean_build():
-    """lake build (library + sockmodel exe).  Returns (ok, output)."""
+UNTRANSLATABLE = []
+
+
+def lean_build(targets=None):
+    """lake build: everything (library + sockmodel exe) without argument, else only the given
+    targets (e.g. ["SockModel.Props.C07", "sockmodel"]).  Returns (ok, output)."""
     with Lock("lean"):
         gen_consts()
-        r = sh(["lake", "build"], cwd=LEAN)
+        r = sh(["lake", "build"] + list(targets or []), cwd=LEAN)
         return r.returncode == 0, r.stdout
 
 
@@ -82,7 +91,7 @@ def lean_build_with_committed_consts():
             return False
         with open(path, "w") as f:
             f.write(r.stdout)
-        b = sh(["lake", "build"], cwd=LEAN)
+        b = sh(["lake", "build", "sockmodel"], cwd=LEAN)
         return b.returncode == 0
 
 
@@ -146,17 +155,55 @@ def prop_theorems(prop):
     return names
 
 
+def broken_theorems(prop, out):
+    """names of the theorems of Props/<prop>.lean that enclose the error positions of a lake output"""
+    path = os.path.join(LEAN, "SockModel", "Props", prop + ".lean")
+    try:
+        lines = strip_comments(open(path).read()).split("\n")
+    except OSError:
+        return []
+    starts = []
+    for i, line in enumerate(lines, 1):
+        m = re.match(r"\s*(?:@\[[^\]]*\]\s*)?(?:private\s+|protected\s+)?(theorem|def|example|instance|abbrev|lemma)\b\s*(\S*)", line)
+        if m:
+            starts.append((i, m.group(1), m.group(2)))
+    names = []
+    for m in re.finditer(r"Props/%s\.lean:(\d+):\d+" % re.escape(prop), out):
+        ln = int(m.group(1))
+        cur = None
+        for i, kind, name in starts:
+            if i <= ln:
+                cur = (kind, name)
+        if cur and cur[0] == "theorem" and cur[1] not in names:
+            names.append(cur[1])
+    return names
+
+
 def lean_audit(prop):
-    """Build, grep for forbidden constructs, #print axioms of every theorem of Props/<prop>.lean.
-    Returns dict(ok, obligations, discharged, theorems, problems, axioms)."""
-    ok, out = lean_build()
+    """Build what the property needs (`lake build SockModel.Props.<prop> sockmodel`), grep for forbidden
+    constructs, #print axioms of every theorem of Props/<prop>.lean.
+    Returns dict(ok, obligations, discharged, theorems, problems, axioms).
+    A problem text starting with "lake build failed" means the driver executable itself does not build;
+    when only Props/<prop>.lean is broken (e.g. a tie theorem against Generated/Funcs.lean) the problem
+    names the broken theorems and the caller can go on to run the implementation."""
+    ok, out = lean_build(["SockModel.Props.%s" % prop, "sockmodel"])
     res = dict(ok=False, obligations=0, discharged=0, theorems=[], problems=[], axioms={})
     names = prop_theorems(prop)
     res["theorems"] = names
     res["obligations"] = len(names)
     if not ok:
         errs = [l for l in out.split("\n") if "error" in l][:20]
-        res["problems"].append("lake build failed: " + " | ".join(errs))
+        ok_exe, _ = lean_build(["sockmodel"])
+        if ok_exe:
+            broken = broken_theorems(prop, out)
+            res["broken"] = broken
+            res["problems"].append("proof obligation broken: SockModel/Props/%s.lean does not check against the current "
+                                   "tree (theorems: %s)%s: %s" % (
+                                       prop, ", ".join(broken) or "?",
+                                       ("; untranslatable C++ functions: " + ", ".join(UNTRANSLATABLE)) if UNTRANSLATABLE else "",
+                                       " | ".join(errs)))
+        else:
+            res["problems"].append("lake build failed: " + " | ".join(errs))
         return res
     hits = forbidden_hits()
     if hits:
